@@ -97,8 +97,15 @@ class C33:
     self.ck = ck
     self.lib = ck.lib('rel')
 
-  def expect_equal(self, what, m1, m2, replay, skip=()):
+  def expect_equal(self, what, m1, m2, replay, skip=(), spec=None):
     d = modelcmp.compare(self.lib, m1, m2, mode='exact', skip=skip)
+    if d and spec and Struct(self.lib, 'mjSpec', spec).compiler.fusestatic and what in ('compile-twice', 'copyspec-after-compile'):
+      # known: the first compile with fusestatic keeps ids / BVH nodes computed before fusing (C36 fusestatic-stale-geom-site-ids);
+      # a second compile of the same (now fused) spec is clean, so the two differ
+      self.ck.violation('%s: models differ: %s  [fusestatic: the first compile of a spec keeps stale ids/BVH nodes of the fused '
+                        'bodies, the next compile of the same spec does not]' % (what, modelcmp.fmt(d)), replay,
+                        bucket='fusestatic-stale-ids', fingerprint='fusestatic-stale-ids')
+      return
     if d:
       raise Violation('%s: models differ: %s' % (what, modelcmp.fmt(d)), bucket=what.split(':')[0] + ':' + d[0].field)
 
@@ -120,7 +127,7 @@ class C33:
       lib.warnings()
       # same spec twice
       m2 = lib.compile_spec(s)
-      self.expect_equal('compile-twice', m1, m2, replay)
+      self.expect_equal('compile-twice', m1, m2, replay, spec=s)
       done.append('twice')
       # copy made before the first compile
       if not s_copy_before:
@@ -131,7 +138,7 @@ class C33:
       s_copy_after = lib.mj_copySpec(s)
       specs.append(s_copy_after)
       m4 = lib.compile_spec(s_copy_after)
-      self.expect_equal('copyspec-after-compile', m1, m4, replay)
+      self.expect_equal('copyspec-after-compile', m1, m4, replay, spec=s)
       done.append('copyspec')
       # same recipe again
       s5 = make_spec()
